@@ -222,6 +222,7 @@ func coordinator(prop, tier string) int {
 	results := make([]*UnitResult, len(units))
 	var mu sync.Mutex
 	var infra []string
+	dealt := 0
 	var wg sync.WaitGroup
 	self, _ := os.Executable()
 	for w := 0; w < nw; w++ {
@@ -257,7 +258,23 @@ func coordinator(prop, tier string) int {
 			}
 			served := 0
 			for idx := range jobs {
-				fmt.Fprintf(stdin, "%d %d\n", idx, deadline.UnixMilli())
+				// fair share: what is left of the budget, spread over the units not yet dealt, so that
+				// every unit is explored to some completed bound instead of the last ones not at all
+				mu.Lock()
+				left := len(units) - dealt
+				dealt++
+				mu.Unlock()
+				ud := deadline
+				if left > nw && tier == "thorough" {
+					share := time.Duration(int64(time.Until(deadline)) * int64(nw) / int64(left))
+					if share < 15*time.Second {
+						share = 15 * time.Second
+					}
+					if d := time.Now().Add(share); d.Before(ud) {
+						ud = d
+					}
+				}
+				fmt.Fprintf(stdin, "%d %d\n", idx, ud.UnixMilli())
 				stdin.Flush()
 				line, err := stdout.ReadBytes('\n')
 				if err != nil {
